@@ -81,8 +81,42 @@ def run(chk):
                 return "supports" if r == ("field", ("param", 2), "rk") else "?"
             return "?"
 
+        is_opts = lambda x: x == ("field", ("param", 3), "options")
+
+        def supports(rows):
+            """the rows say: the authenticator's own `rk` option when it reports options, false when it reports none —
+            as one value (`is_some_and`, a selection) or as two rows split on the presence of the options"""
+            sel = {}
+            for r in rows:
+                v = N.norm(r.value)
+                if not r.conds:
+                    s2, subj = presence_selection(v, is_opts)
+                    if subj is None:
+                        return False
+                    sel.update(s2)
+                    continue
+                pol = None
+                for t, l, f, w in r.conds:
+                    if flow.asserts_ok(t, l, is_opts):
+                        pol = True
+                    elif flow.asserts_fail(t, l, is_opts):
+                        pol = False
+                    else:
+                        return False
+                if pol is None or pol in sel:
+                    return False
+                sel[pol] = v
+            if set(sel) != {True, False}:
+                return False
+            rk_of = sel[True]
+            while isinstance(rk_of, tuple) and len(rk_of) == 4 and rk_of[0] == "call" and rk_of[2] and (names.is_(rk_of[1], "Deref::deref") or names.is_(rk_of[1], "Clone::clone")):
+                rk_of = rk_of[2][0]
+            return sel[False] == ("const", 0) and isinstance(rk_of, tuple) and len(rk_of) == 3 and rk_of[0] == "field" and rk_of[2] == "rk" and flow.is_payload_of(rk_of[1], is_opts)
+
         def run_input(crit):
             rows = S.evaluate(mr, {("param", 2): crit})
+            if supports(rows):
+                return "supports"
             rows = [r for r in rows if not r.conds]
             vals = {classify(r.value) for r in rows}
             return vals.pop() if len(vals) == 1 else "?%s" % sorted(vals)
